@@ -202,6 +202,9 @@ def main():
         OPS.update({k[3:]: v for k, v in vars(ops_more).items() if k.startswith('op_')})
     except ImportError:
         pass
+    if os.environ.get('SPIL_FIRST_CFG'):
+        from spil.sid.pathops.pathconfig import get_path_config
+        get_path_config(os.environ['SPIL_FIRST_CFG'])
     if os.environ.get('SPIL_UNIVERSES'):
         import ops_more
         ops_more.UNIVERSES = json.load(open(os.environ['SPIL_UNIVERSES']))
